@@ -961,6 +961,7 @@ func (h *handler) asyncSyncAdChain(ctx context.Context) {
 			h.subscriber.receiver.UncacheCid(nextCid)
 		}
 		log.Errorw("Cannot make syncer for announce", "err", err, "peer", h.peerID)
+		verifhook.Point("event.senderr", h.peerID)
 		h.subscriber.inEvents <- SyncFinished{
 			Cid:    nextCid,
 			PeerID: h.peerID,
